@@ -227,6 +227,9 @@ func runStep(bin, dir string, w *wcfg, st *state, q *request, step int) *outcome
 
 	bothSig := q.MinSig != 0 && q.Rfc != 0 // configuration error: must be refused
 	wd := 120 * time.Second                // a normal run takes some 20 ms
+	if bothSig {
+		wd = 20 * time.Second // a refusal is immediate; firing => INCONCLUSIVE as everywhere
+	}
 	pr := runWallet(bin, dir, args, wd)
 	if os.Getenv("VERIF_DEBUG") != "" && pr.wall > time.Second {
 		fmt.Fprintf(os.Stderr, "wallet run took %v: %v\n", pr.wall, args)
